@@ -11,7 +11,7 @@ EXTENDS Naturals, Sequences, FiniteSets, TLC, Json, Argv
 CONSTANTS Profile, MaxLen, Shard, NShards
 
 \* a piece is one or two argv elements
-Rec == {<<"-includecfg=debug.h">>, <<"-isystemopt/x=y/include">>, <<"-include", "a=b.h">>, <<"-DEMPTY=">>, <<"-D", "EMPTY2=">>, <<"-DA">>, <<"-D", "B">>, <<"-DC=1">>, <<"-D", "E=x=y">>, <<"-DS=a b">>, <<"-DQ=\"q\"">>, <<"-DF(x)=x">>,
+Rec == {<<"-includecfg=debug.h">>, <<"-isystemopt/x=y/include">>, <<"-include", "a=b.h">>, <<"-DEMPTY=">>, <<"-D", "EMPTY2=">>, <<"-DA">>, <<"-D", "B">>, <<"-DC=1">>, <<"-D", "E=x=y">>, <<"-DS=a b">>, <<"-DW=a  b">>, <<"-I", "two  blanks">>, <<"-DQ=\"q\"">>, <<"-DF(x)=x">>,
         <<"-Iinc">>, <<"-I", "inc2">>, <<"-I", "dir with space">>, <<"-I", "-dashdir">>, <<"-I.">>,
         <<"-isystem", "sys">>, <<"-isystemsys2">>, <<"-include", "pre.h">>, <<"-includepre2.h">>,
         \* values spelled like options that are otherwise ignored
@@ -22,7 +22,7 @@ Unk == {<<"-g3">>, <<"-ggdb">>, <<"-g">>, <<"-O">>, <<"-O2">>, <<"-Ofast">>, <<"
         <<"-MT", "tgt">>, <<"-w">>, <<"-pipe">>, <<"-m64">>, <<"-Xlinker", "-z">>, <<"-isysroot", "/sdk">>,
         <<"-funroll-loops">>, <<"-ftemplate-depth=100">>, <<"-dM">>, <<"-E">>, <<"-S">>, <<"-v">>, <<"-Winvalid-pch">>,
         <<"-iquote", "qdir">>, <<"-idirafter", "adir">>, <<"-nostdinc">>, <<"-Dz">>}
-Pieces == CASE Profile = "small" -> {<<"-includecfg=debug.h">>, <<"-isystemopt/x=y/include">>, <<"-DEMPTY=">>, <<"-DS=a b">>, <<"-DA">>, <<"-D", "B">>, <<"-Iinc">>, <<"-I", "inc2">>, <<"-isystem", "sys">>, <<"-include", "pre.h">>,
+Pieces == CASE Profile = "small" -> {<<"-includecfg=debug.h">>, <<"-isystemopt/x=y/include">>, <<"-DEMPTY=">>, <<"-DS=a b">>, <<"-DW=a  b">>, <<"-DA">>, <<"-D", "B">>, <<"-Iinc">>, <<"-I", "inc2">>, <<"-isystem", "sys">>, <<"-include", "pre.h">>,
                                      <<"-g3">>, <<"-O2">>, <<"-MF", "dep.d">>, <<"-ccbin", "g++">>, <<"-O">>, <<"-c">>, <<"-o", "out.o">>,
                                      <<"-isystemsys2">>, <<"-includepre2.h">>, <<"-Wall">>, <<"-x", "c++">>, <<"-ggdb">>, <<"-I", "-c">>, <<"-include", "-g3">>}
             [] OTHER -> Rec \cup Unk
